@@ -183,6 +183,24 @@ def is_foreign_exp(exp):
 
 
 def strip_generics(p: str) -> str:
+    if p.startswith("<"):
+        # qualified form <Self as Trait>::rest  -- keep the qualifier, strip generics inside it
+        depth = 0
+        for i, ch in enumerate(p):
+            if ch == "<":
+                depth += 1
+            elif ch == ">":
+                depth -= 1
+                if depth == 0:
+                    inner = p[1:i]
+                    parts = inner.split(" as ", 1)
+                    inner = " as ".join(_strip_generics_plain(x) for x in parts)
+                    return "<" + inner + ">" + _strip_generics_plain(p[i + 1 :])
+        return p
+    return _strip_generics_plain(p)
+
+
+def _strip_generics_plain(p: str) -> str:
     out, depth = [], 0
     for ch in p:
         if ch == "<":
@@ -656,6 +674,8 @@ def const_val(c):
             if k == "int" and "variant" in c and c["variant"]:
                 return ("variant", c["variant"])
             return (k, c[k])
+    if "promoted" in c:
+        return ("promoted", c["promoted"])
     if "named" in c:
         return ("named", c["named"])
     if c.get("zst"):
@@ -675,7 +695,12 @@ class Sym:
 
     def operand(self, op, depth=0, visiting=frozenset()):
         if "const" in op:
-            return ("const",) + const_val(op["const"])
+            cv = const_val(op["const"])
+            if cv[0] == "promoted":
+                r = self._promoted(cv[1])
+                if r is not None:
+                    return r
+            return ("const",) + cv
         p = op.get("copy") or op.get("move")
         if p is None:
             return ("unknown", "operand")
@@ -720,6 +745,19 @@ class Sym:
             if s[1] in ("tuple", "closure") and idx is not None and idx < len(s[3]):
                 return s[3][idx]
         return ("field", s, name)
+
+    def _promoted(self, idx):
+        """Symbolic value returned by promoted body #idx of this function (or of the closure's root)."""
+        key = ("promoted", idx)
+        if key in self._memo:
+            return self._memo[key]
+        proms = self.fn.j.get("promoted") or []
+        if idx >= len(proms):
+            return None
+        pf = _PromotedFn(self.fn, proms[idx], idx)
+        r = Sym(pf).local(0)
+        self._memo[key] = r
+        return r
 
     def _captures(self):
         if self._parent_caps is not None:
@@ -801,6 +839,22 @@ class Sym:
         if k == "repeat":
             return ("repeat", self.operand(rv["a"], depth, vis), rv.get("n"))
         return ("unknown", k)
+
+
+class _PromotedFn:
+    """Minimal Fn look-alike for a promoted MIR body."""
+
+    def __init__(self, owner, mir, idx):
+        self.crate = owner.crate
+        self.j = {"path": f"{owner.path}::promoted[{idx}]", "dk": "Promoted", "mir": mir}
+        self.path = self.j["path"]
+        self.dk = "Promoted"
+        self.name = ""
+        self.children = []
+        self.parent = None
+        self.body = Body(self, mir)
+        self.file = owner.file
+        self.line = owner.line
 
 
 def contains_cycle(s):
